@@ -41,7 +41,12 @@ fn fault_specs(rng: &mut ChaCha20Rng) -> Vec<FaultSpec> {
 }
 
 pub async fn one_history(mon: &mut Monitor, rng: &mut ChaCha20Rng, dir: PathBuf, hid: &str, honest: bool) -> anyhow::Result<()> {
-    let types = vec![SignedEntityTypeDiscriminants::CardanoStakeDistribution, SignedEntityTypeDiscriminants::CardanoDatabase];
+    let mut types = vec![SignedEntityTypeDiscriminants::CardanoStakeDistribution, SignedEntityTypeDiscriminants::CardanoDatabase];
+    let with_transactions = !honest && rnd::chance(rng, 1, 2);
+    if with_transactions {
+        types.insert(1, SignedEntityTypeDiscriminants::CardanoTransactions);
+        mon.count("histories_with_cardano_transactions");
+    }
     let mut run = Run::start(dir, rng, hid, types).await?;
     let n_epochs = 4 + rnd::below(rng, 5);
     let n_real = run.n_real();
@@ -88,7 +93,9 @@ pub async fn one_history(mon: &mut Monitor, rng: &mut ChaCha20Rng, dir: PathBuf,
                     let faults = if rnd::chance(rng, 30, 100) { fault_specs(rng) } else { vec![] };
                     Ev::SignerTick { i, faults }
                 }
-                62..=67 => Ev::NewImmutable,
+                62..=67 => {
+                    if with_transactions && rnd::chance(rng, 1, 2) { Ev::Blocks(10 + rnd::below(rng, 40)) } else { Ev::NewImmutable }
+                }
                 68..=72 => {
                     let i = rnd::usize_below(rng, n_real);
                     if run.signers[i].is_up() { Ev::SignerRestart(i) } else { Ev::AggTick }
@@ -125,7 +132,8 @@ pub async fn one_history(mon: &mut Monitor, rng: &mut ChaCha20Rng, dir: PathBuf,
             run.apply(&ev, mon).await?;
         }
         // ---- quiet end of the epoch: everybody that is up works undisturbed
-        if honest || rnd::chance(rng, 95, 100) {
+        let quiet_end = honest || rnd::chance(rng, 95, 100);
+        if quiet_end {
             if run.agg_down {
                 run.apply(&Ev::AggDown(false), mon).await?;
             }
@@ -163,7 +171,7 @@ pub async fn one_history(mon: &mut Monitor, rng: &mut ChaCha20Rng, dir: PathBuf,
             mon.count("epochs_without_a_certificate");
         }
         let st = run.agg.sim.state();
-        if st.starts_with("blocked") && st != "blocked-genesis-epoch" {
+        if (st.starts_with("blocked") && st != "blocked-genesis-epoch") || (st == "idle" && quiet_end) {
             mon.count(&format!("history_ended_early:aggregator_{st}"));
             dead = true;
             break;
